@@ -1,0 +1,140 @@
+//! Seams for the deterministic simulator that lives outside this repository.
+//!
+//! Compiled only with `--cfg pyxis_verif`; without that flag none of this exists and the
+//! shipped behaviour is unchanged. With the flag but with no [`Scheduler`] installed on the
+//! current thread every hook is a pass-through (the real hash order is used).
+//!
+//! A hook never replaces the code it sits in: the real collection is iterated by the real
+//! line, and only the *order* of what that line produced is then decided by the scheduler.
+
+use std::cell::{Cell, RefCell};
+
+/// A place where the iteration order of a hash collection decides what happens next.
+#[derive(Debug, Clone, Copy, PartialEq, Eq, Hash, PartialOrd, Ord)]
+pub enum Site {
+    /// `TypeRegistry::unresolved()`: the worklist of one pass of the resolution loop.
+    Unresolved,
+    /// `lib::build`: the order in which modules are handed to the backend.
+    ModuleWrite,
+    /// `backends::rust::write_module`: the order of a module's definitions before sorting.
+    Definitions,
+}
+
+impl Site {
+    fn bit(self) -> u32 {
+        match self {
+            Site::Unresolved => 1,
+            Site::ModuleWrite => 2,
+            Site::Definitions => 4,
+        }
+    }
+}
+
+pub trait Scheduler {
+    /// `keys` are the items at `site`, sorted; return a permutation of `0..keys.len()`:
+    /// position `i` of the served order is `keys[result[i]]`.
+    fn permutation(&mut self, site: Site, keys: &[String]) -> Vec<usize>;
+    /// A named point of interest was reached.
+    fn probe(&mut self, _name: &'static str) {}
+}
+
+thread_local! {
+    static SCHEDULER: RefCell<Option<Box<dyn Scheduler>>> = const { RefCell::new(None) };
+    static INSIDE: Cell<u32> = const { Cell::new(0) };
+}
+
+/// Installs `scheduler` for the current thread, returning the previous one.
+pub fn install(scheduler: Box<dyn Scheduler>) -> Option<Box<dyn Scheduler>> {
+    INSIDE.with(|i| i.set(0));
+    SCHEDULER.with(|s| s.borrow_mut().replace(scheduler))
+}
+
+/// Removes and returns the current thread's scheduler.
+pub fn uninstall() -> Option<Box<dyn Scheduler>> {
+    INSIDE.with(|i| i.set(0));
+    SCHEDULER.with(|s| s.borrow_mut().take())
+}
+
+pub fn is_installed() -> bool {
+    SCHEDULER.with(|s| s.try_borrow().map(|s| s.is_some()).unwrap_or(true))
+}
+
+pub(crate) struct Guard(Site);
+impl Drop for Guard {
+    fn drop(&mut self) {
+        INSIDE.with(|i| i.set(i.get() & !self.0.bit()));
+    }
+}
+
+/// `Some` when a scheduler is installed and we are not already inside `site`'s hook.
+pub(crate) fn enter(site: Site) -> Option<Guard> {
+    if !is_installed() {
+        return None;
+    }
+    INSIDE.with(|i| {
+        if i.get() & site.bit() != 0 {
+            None
+        } else {
+            i.set(i.get() | site.bit());
+            Some(Guard(site))
+        }
+    })
+}
+
+/// Sorts `items` by `key`, then puts them in the order the scheduler chooses.
+pub(crate) fn reorder<T>(site: Site, mut items: Vec<T>, key: impl Fn(&T) -> String) -> Vec<T> {
+    if !is_installed() {
+        return items;
+    }
+    items.sort_by_cached_key(|t| key(t));
+    let keys: Vec<String> = items.iter().map(|t| key(t)).collect();
+    let permutation = SCHEDULER.with(|s| match s.borrow_mut().as_mut() {
+        Some(s) => s.permutation(site, &keys),
+        None => (0..keys.len()).collect(),
+    });
+    let mut seen = vec![false; items.len()];
+    assert!(
+        permutation.len() == items.len()
+            && permutation
+                .iter()
+                .all(|&i| i < seen.len() && !std::mem::replace(&mut seen[i], true)),
+        "pyxis_verif: scheduler returned a non-permutation at {site:?}"
+    );
+    let mut slots: Vec<Option<T>> = items.into_iter().map(Some).collect();
+    permutation
+        .into_iter()
+        .map(|i| slots[i].take().unwrap())
+        .collect()
+}
+
+pub(crate) fn reorder_in_place<T>(site: Site, items: &mut Vec<T>, key: impl Fn(&T) -> String) {
+    *items = reorder(site, std::mem::take(items), key);
+}
+
+pub(crate) fn probe(name: &'static str) {
+    SCHEDULER.with(|s| {
+        if let Ok(mut s) = s.try_borrow_mut() {
+            if let Some(s) = s.as_mut() {
+                s.probe(name);
+            }
+        }
+    });
+}
+
+/// Wrapper whose `modules()` yields the real map's entries in scheduler order.
+pub struct Ordered<T>(pub T);
+impl<T> std::ops::Deref for Ordered<T> {
+    type Target = T;
+    fn deref(&self) -> &T {
+        &self.0
+    }
+}
+impl Ordered<crate::semantic::ResolvedSemanticState> {
+    pub fn modules(
+        &self,
+    ) -> Vec<(&crate::grammar::ItemPath, &crate::semantic::Module)> {
+        reorder(Site::ModuleWrite, self.0.modules().iter().collect(), |(k, _)| {
+            k.to_string()
+        })
+    }
+}
